@@ -184,6 +184,30 @@ def align(e2, e1, limit=300):
     return e2, pairs
 
 
+RULES = []       # term -> [(application, replacement)]: rewrite instances of stated laws (relabelling: PI(PINV(z)) = z), see Relabelling
+
+
+def _rules(*terms):
+    out = []
+    for f in RULES:
+        for t in terms:
+            out += f(t)
+    return out
+
+
+def _normalise(t):
+    """apply the rewrite instances of the stated laws (RULES) inside a term, everywhere (also inside the arguments of Σ-applications),
+    until none is left -> (term, [(application, replacement)])"""
+    used = []
+    for _ in range(50):
+        rw = _rules(t)
+        if not rw:
+            break
+        used += rw
+        t = z3.substitute(t, *rw)
+    return t, used
+
+
 def sigma_chain(name, s1, s2, depth=0):
     """obligations for S1 == S2, two Σ-applications over the same range whose summands agree up to ring identities inside the arguments
     of uninterpreted applications (distances, rounded fractional coordinates ...) and up to linear arithmetic outside them:
@@ -195,12 +219,35 @@ def sigma_chain(name, s1, s2, depth=0):
     import contracts.C03 as C03
     d1, d2 = sigma.sigma_def_of(s1), sigma.sigma_def_of(s2)
     if d1 is None or d2 is None or not (z3.simplify(s1.arg(0) - s2.arg(0)).eq(z3.IntVal(0)) and z3.simplify(s1.arg(1) - s2.arg(1)).eq(z3.IntVal(0))):
-        yield name + ":accumulated-sums-equal", False
+        # not two sums over the same range: left to the solver as it stands
+        yield name + ":accumulated-sums-equal", s1 == s2
         return
     a1 = [s1.arg(i) for i in range(2, s1.num_args())]
     a2 = [s2.arg(i) for i in range(2, s2.num_args())]
     x = z3.Int(f"x_any{depth}")
     b1, b2 = d1.body_at(x, a1), d2.body_at(x, a2)
+    b1, _u1 = _normalise(b1)
+    b2, _u2 = _normalise(b2)
+    if _u1 or _u2:
+        yield name + ":law-instances", z3.And(*[a == b for a, b in _u1 + _u2])
+    rng = z3.And(s1.arg(0) <= x, x < s1.arg(1))
+    # conditions that the index range decides (a neighbour slot below the coordination number ...) are resolved first; each is an obligation
+    decided = []
+    for gd in _all_ite_guards(z3.And(b1 == b1, b2 == b2)):
+        for val in (True, False):
+            sol = z3.Solver()
+            sol.set("timeout", 2000)
+            sol.add(rng, gd if not val else z3.Not(gd))
+            if sol.check() == z3.unsat:
+                decided.append((gd, z3.BoolVal(val)))
+                break
+    if decided:
+        yield name + ":conditions-decided-by-the-index-range", z3.And(*[z3.Implies(rng, gd if z3.is_true(v) else z3.Not(gd)) for gd, v in decided])
+        b1, b2 = z3.simplify(z3.substitute(b1, *decided)), z3.simplify(z3.substitute(b2, *decided))
+        b1, _u1 = _normalise(b1)
+        b2, _u2 = _normalise(b2)
+        if _u1 or _u2:
+            yield name + ":law-instances", z3.And(*[a == b for a, b in _u1 + _u2])
     in1, in2 = C03.outer_sigmas(b1), C03.outer_sigmas(b2)
     gen = []
     if len(in1) == len(in2):
@@ -209,6 +256,15 @@ def sigma_chain(name, s1, s2, depth=0):
                 yield from sigma_chain(f"{name}:inner{k}", i1, i2, depth + 1)
                 b2 = z3.substitute(b2, (i2, i1))
             gen.append(i1)
+    rw = _rules(b1, b2)
+    if rw and ring_ok(b1 == b2, rw):
+        # the summands are ring-equal once the stated laws (instances in `rw`) are applied
+        yield name + ":summands-equal", z3.Implies(rng, b1 == b2), {"ring_only": True, "rewrites": rw}
+
+        def pw0(w, d1=d1, d2=d2, a1=a1, a2=a2, lo=s1.arg(0), hi=s1.arg(1)):
+            return z3.Implies(z3.And(lo <= w, w < hi), d1.body_at(w, a1) == d2.body_at(w, a2))
+        yield name + ":accumulated-sums-equal", s1 == s2, {"solver_opts": {"pointwise": [pw0], "rounds": 1, "unfold": False}}
+        return
     b2a, pairs = align(b2, b1)
     if pairs:
         yield name + ":atoms-congruent", z3.And(*[p2 == p1 for p2, p1 in pairs]), {"ring_only": True}
@@ -219,11 +275,11 @@ def sigma_chain(name, s1, s2, depth=0):
     # is linear arithmetic over them (bin edges, cutoffs, selections)
     for t in _outermost_geometry_apps(z3.And(b1 == b1, b2a == b2a)):
         atoms[t.get_id()] = t
-    goal, _ = sv.generalize(b1 == b2a, [sv.SV(t) for t in list(atoms.values()) + gen], "u")
+    goal, _ = sv.generalize(z3.Implies(rng, b1 == b2a), [sv.SV(t) for t in list(atoms.values()) + gen], "u")
     yield name + ":summands-equal", goal, {"timeout": 10, "solver_opts": {"rounds": 1, "unfold": False}}
 
-    def pw(w, d1=d1, d2=d2, a1=a1, a2=a2):
-        return d1.body_at(w, a1) == d2.body_at(w, a2)
+    def pw(w, d1=d1, d2=d2, a1=a1, a2=a2, lo=s1.arg(0), hi=s1.arg(1)):
+        return z3.Implies(z3.And(lo <= w, w < hi), d1.body_at(w, a1) == d2.body_at(w, a2))
     yield name + ":accumulated-sums-equal", s1 == s2, {"solver_opts": {"pointwise": [pw], "rounds": 1, "unfold": False}}
 
 
@@ -234,12 +290,19 @@ def related(name, inr, v1, v2, subst=()):
     g = sv.zb(sv.implies(inr, sv.cmp("==", v1, v2)))
     if subst:
         g = z3.substitute(g, *subst)
-    if ring_ok(g):
-        yield name, g, {"ring_only": True}
+    rw = _rules(g)
+    if ring_ok(g, rw):
+        yield name, g, {"ring_only": True, "rewrites": rw}
         return
     t1, t2 = sv.zr(sv.norm(v1)), sv.zr(sv.norm(v2))
     if subst:
         t2 = z3.substitute(t2, *subst)
+    # instances of the stated laws are applied everywhere first (they are facts of the unit: one obligation lists the instances used)
+    t1, u1 = _normalise(t1)
+    t2, u2 = _normalise(t2)
+    if u1 or u2:
+        yield name + ":law-instances", z3.And(*[a == b for a, b in u1 + u2])
+    g = z3.Implies(sv.zb(inr), t1 == t2) if not isinstance(inr, bool) else (t1 == t2)
     s1, s2 = C03.outer_sigmas(t1), C03.outer_sigmas(t2)
     if len(s1) != len(s2) or not s1:
         yield name, g
@@ -249,7 +312,17 @@ def related(name, inr, v1, v2, subst=()):
         if not x1.eq(x2):
             yield from sigma_chain(f"{name}:sum{k}", x1, x2)
             sub.append((x2, x1))
-    yield name, z3.substitute(g, *sub) if sub else g, {"ring_only": True}
+    yield name, z3.substitute(g, *sub) if sub else g, {"ring_only": True, "rewrites": _rules(g)}
+
+
+def related_cx(name, inr, v1, v2):
+    v1, v2 = sv.norm(v1), sv.norm(v2)
+    if isinstance(v1, sv.Cx) or isinstance(v2, sv.Cx):
+        v1, v2 = sv.as_cx(v1), sv.as_cx(v2)
+        yield from related(name + ":re", inr, v1.re, v2.re)
+        yield from related(name + ":im", inr, v1.im, v2.im)
+    else:
+        yield from related(name, inr, v1, v2)
 
 
 # ---------------------------------------------------------------------------------------------------------------
@@ -279,6 +352,16 @@ class Group:
 
     def axis(self, d, c):
         return c
+
+    def particle(self, i):
+        """index in the run on x of the particle that has index i in the run on g.x"""
+        return i
+
+    def typ(self, base, s, i):
+        return base(s, i)
+
+    def prepare(self, ctx, unit, inp):
+        pass
 
     def begin(self, ctx, unit, inp):
         return None
@@ -405,6 +488,20 @@ def affine_in(e, name="SHIFTV"):
         raise sv.EngineError(f"remove_pbc argument is not affine in the transformation symbol {name} ({t.decl().name()})")
     base, coefs = go(e)
     return (zero_r if base is None else base), coefs
+
+
+def _all_ite_guards(e):
+    """conditions of all conditionals of a term, including those inside the arguments of applications"""
+    out, seen, stack = {}, set(), [e]
+    while stack:
+        t = stack.pop()
+        if t.get_id() in seen:
+            continue
+        seen.add(t.get_id())
+        if z3.is_app(t) and t.decl().kind() == z3.Z3_OP_ITE:
+            out[t.arg(0).get_id()] = t.arg(0)
+        stack.extend(t.children())
+    return list(out.values())
 
 
 def _ite_guards(e):
@@ -645,6 +742,89 @@ def axis_lemmas():
     return out
 
 
+# ---- relabelling of the particle ids ---------------------------------------------------------------------------------------------------
+
+PI = z3.Function("PI", I_, I_)          # particle a of the relabelled configuration is particle PI(a) of the original one
+PINV = z3.Function("PINV", I_, I_)      # its inverse
+RN_KEY = "PyMatterSim.neighbors.read_neighbors.read_neighbors"
+
+
+def _pi_rules(t):
+    out = []
+    for a in _uf_apps(t):
+        if a.decl().name() == "PI" and z3.is_app(a.arg(0)) and a.arg(0).decl().name() == "PINV":
+            out.append((a, a.arg(0).arg(0)))
+        if a.decl().name() == "PINV" and z3.is_app(a.arg(0)) and a.arg(0).decl().name() == "PI":
+            out.append((a, a.arg(0).arg(0)))
+    return out
+
+
+class Relabelling(Group):
+    """positions, types, per-particle input fields and the rows of the neighbour / weight files permuted consistently: particle a of
+    g.x is particle PI(a) of x, PI a bijection of [0, N) with inverse PINV (stated as facts per application: ranges and the two
+    inverse laws); a neighbour id j of x is written PINV(j) in the file of g.x.  Per-particle outputs permute accordingly:
+    f(g.x)[a] = f(x)[PI(a)].  No re-indexing of a sum over particles is needed for the per-particle observables built on neighbour
+    files (the sums run over the neighbour slots); only the law PI(PINV(j)) = j is used (rewrite instances)."""
+    key = "relabelling"
+    what = "permutes-with-the-particle-ids"
+
+    def pos(self, geo, s, i, c, per_frame=True):
+        return geo.pos(s, sv.SV(PI(sv.znum(i))), c)
+
+    def typ(self, base, s, i):
+        return base(s, sv.SV(PI(sv.znum(i))))
+
+    def particle(self, i):
+        return sv.SV(PI(sv.znum(i)))
+
+    def rows(self, arr):
+        """a per-particle input array (N, ...) of g.x"""
+        rd = arr.reader()
+        return A.new_arr(arr.shape, lambda idx: rd((sv.SV(PI(sv.znum(idx[0]))),) + tuple(idx[1:])), arr.dtype)
+
+    def prepare(self, ctx, unit, inp):
+        N = sv.znum(inp["N"])
+        ctx.array_fact("PI", lambda x: z3.And(z3.Implies(z3.And(x >= 0, x < N), z3.And(PI(x) >= 0, PI(x) < N)), PINV(PI(x)) == x))
+        ctx.array_fact("PINV", lambda y: z3.And(z3.Implies(z3.And(y >= 0, y < N), z3.And(PINV(y) >= 0, PINV(y) < N)), PI(PINV(y)) == y))
+        if _pi_rules not in RULES:
+            RULES.append(_pi_rules)
+
+    def begin(self, ctx, unit, inp):
+        from pyvc.lib import _arr
+        interp = ctx.interp
+        orig = interp.summaries.get(RN_KEY)
+        if orig is None:
+            return ("none", None)
+
+        def wrapped(interp_, args, kwargs):
+            arr = _arr(orig(interp_, args, kwargs), interp_)
+            rd = arr.reader()
+            if arr.ndim != 2:
+                raise sv.EngineError("relabelling wrapper: read_neighbors returns a 2-D array")
+
+            def fn(idx):
+                a, k = idx
+                row = sv.SV(PI(sv.znum(a)))
+                v = rd((row, k))
+                if arr.dtype != "int":
+                    return v                      # a weight (or any other per-neighbour property) stays with its slot
+                cn = rd((row, 0))
+                listed = sv.and_(sv.cmp(">=", k, 1), sv.cmp("<=", k, cn))
+                if sv.is_conc(k) and int(k) == 0:
+                    return v
+                return sv.ite(listed, lambda: sv.SV(PINV(sv.znum(v))), lambda: v)
+            return A.new_arr(arr.shape, A._memo(fn), arr.dtype)
+        interp.summaries[RN_KEY] = wrapped
+        return ("wrapped-rn", orig)
+
+    def end(self, ctx, unit, inp, token):
+        if token and token[0] == "wrapped-rn":
+            ctx.interp.summaries[RN_KEY] = token[1]
+
+
+RELABEL = Relabelling()
+
+
 # ---------------------------------------------------------------------------------------------------------------
 # the generic relational unit
 
@@ -686,6 +866,7 @@ class Rel(Unit):
         args, kwargs, inp = self.base.setup(ctx, case)
         inp = dict(inp)
         inp["args"], inp["kwargs"] = list(args), dict(kwargs)
+        self.g.prepare(ctx, self, inp)
         return args, kwargs, inp
 
     def cl(self, what):
@@ -742,13 +923,18 @@ def traj_geo(inp):
 
 
 def traj_view(unit, inp):
-    p2 = unit.pos2(inp)
-    return inp["tr"].view(pos_map=lambda t, s, i, c, base: p2(s, i, c))
+    p2, c2, tr = unit.pos2(inp), unit.cell2(inp), inp["tr"]
+    raw_typ = lambda s, i: sv.SV(tr.TYPE(sv.znum(tr._s(s, tr.same_types)), sv.znum(i)))
+    return tr.view(pos_map=lambda t, s, i, c, base: p2(s, i, c), cell_map=lambda t, s, a, b, base: c2(s, a, b),
+                   type_map=lambda t, s, i, base: unit.g.typ(raw_typ, s, i))
 
 
 class Boo2d(Rel):
     """psi_l(s, i) returned by boo_2d.lthorder (real and imaginary part)"""
     clauses = ("psi",)
+
+    def clause_names(self, case):
+        return [self.cl("psi") + ":re", self.cl("psi") + ":im"]
     geo = staticmethod(traj_geo)
 
     def second(self, ctx, inp):
@@ -764,7 +950,7 @@ class Boo2d(Rel):
             yield from self.fail()
             return
         s, i = inp["s"], inp["i"]
-        yield eq_goal(self.cl("psi"), in_range((0, s, inp["T"]), (0, i, inp["N"])), [(res1.get((s, i)), res2.get((s, i)))])
+        yield from related_cx(self.cl("psi"), in_range((0, s, inp["T"]), (0, i, inp["N"])), res1.get((s, self.g.particle(i))), res2.get((s, i)))
 
     def replay(self, case, clause, model, seed):
         return replay_rel("boo_2d.lthorder", self.g.key, seed, case)
@@ -774,6 +960,9 @@ class Boo3d(Rel):
     """q_lm(n, i) and Q_lm(n, i) returned by boo_3d.qlm_Qlm (every m, real and imaginary part)"""
     clauses = ("q_lm", "Q_lm")
     geo = staticmethod(traj_geo)
+
+    def clause_names(self, case):
+        return [self.cl(c) + p for c in self.clauses for p in (":re", ":im")]
 
     def second(self, ctx, inp):
         import contracts.C09 as C09
@@ -790,8 +979,8 @@ class Boo3d(Rel):
             return
         n, i, k = inp["n"], inp["i"], inp["k"]
         inr = in_range((0, n, inp["T"]), (0, i, inp["N"]), (0, k, inp["M"]))
-        yield eq_goal(self.cl("q_lm"), inr, [(res1[0].get((n, i, k)), res2[0].get((n, i, k)))])
-        yield eq_goal(self.cl("Q_lm"), inr, [(res1[1].get((n, i, k)), res2[1].get((n, i, k)))])
+        yield from related_cx(self.cl("q_lm"), inr, res1[0].get((n, self.g.particle(i), k)), res2[0].get((n, i, k)))
+        yield from related_cx(self.cl("Q_lm"), inr, res1[1].get((n, self.g.particle(i), k)), res2[1].get((n, i, k)))
 
     def replay(self, case, clause, model, seed):
         return replay_rel("boo_3d.qlm_Qlm", self.g.key, seed, case)
@@ -904,7 +1093,9 @@ class Sq(Rel):
         import contracts.C04 as C04
         names = []
         for name, _ in C04.columns(self.base.K):
-            if self.g.key == "translation":
+            if self.g.key == "relabelling":
+                names += [f"{name}:summand-of-g.x-at-i=summand-of-x-at-PI(i)", f"{name}:frame-term"]
+            elif self.g.key == "translation":
                 names += [f"{name}:particle-sums=phase-rotated-sums:induction-base", f"{name}:particle-sums=phase-rotated-sums:induction-step",
                           f"{name}:frame-term-invariant-under-a-unit-phase"]
             else:
@@ -952,6 +1143,7 @@ class Sq(Rel):
             be1, be2 = sd1.body_at(s0.t, a1), sd2.body_at(s0.t, a2)
             subs, bad = [], False
             step_goals, base_goals = [], []
+            re_goals, re_inst = [], []
             lat_goals, lat_rw, lat_pairs = [], [], []
             B = None
             for e2 in C04.outer_sigmas(be2):
@@ -966,6 +1158,20 @@ class Sq(Rel):
                 fa = fas[0]
                 isc = fa.decl().name() == "cos"
                 arg2 = fa.arg(0)
+                if self.g.key == "relabelling":
+                    # Σ over the particles re-indexed by the bijection PI of [0, N): the summand of g.x at i is the summand of x at PI(i)
+                    # (obligation), hence sum_{i<N} f(PI(i)) = sum_{i<N} f(i) — TRUSTED rule `reindex-by-bijection`, one instance per sum
+                    w = z3.Int("w_any")
+                    piv = PI(iv)
+                    tmpl = z3.substitute(body2, (piv, w))
+                    if _contains_const(tmpl, iv) or not (hi.eq(sv.znum(N))):
+                        bad = True
+                        break
+                    e1 = sv.zr(sv.norm(Sum(0, N, lambda t, tmpl=tmpl: sv.SV(z3.substitute(tmpl, (w, sv.znum(t)))))))
+                    re_goals.append(body2 == z3.substitute(tmpl, (w, piv)))
+                    re_inst.append(e2 == e1)
+                    subs.append((e2, e1))
+                    continue
                 sym = "TVEC" if self.g.key == "translation" else "SHIFTV"
                 tapps = _apps_named(arg2, (sym,))
                 A_ = z3.substitute(arg2, *[(t, z3.RealVal(0)) for t in tapps]) if tapps else arg2
@@ -1032,7 +1238,11 @@ class Sq(Rel):
                 for c in names:
                     yield c, False
                 continue
-            if self.g.key == "translation":
+            if self.g.key == "relabelling":
+                yield f"{name}:summand-of-g.x-at-i=summand-of-x-at-PI(i)", z3.And(*re_goals), {"ring_only": True}
+                # the instances of the reindexing rule (TRUSTED) are assumed here; with them the frame terms are ring-equal
+                yield f"{name}:frame-term", z3.Implies(z3.And(*re_inst), z3.substitute(be2, *subs) == be1), {"ring_only": True}
+            elif self.g.key == "translation":
                 # (A) induction over the number of particles: sum_{i<n} f(A_i + B) = (cos B, sin B)-combination of the untranslated sums;
                 #     base n = 0: empty sums; step: unfold-last instances + hypothesis + angle-addition instance at i = n (rewrites)
                 yield f"{name}:particle-sums=phase-rotated-sums:induction-base", z3.And(*base_goals), {"solver_opts": {"rounds": 1, "unfold": False}}
